@@ -114,8 +114,15 @@ def check(repo, res, tier):
     for n, k, v in stores:
         K, V = canon.p(k, fr), canon.p(v, fr)
         want = 'Cluster.get_machine_from_id(%s.allocated_machine_id)' % K
+        # (the cluster name may be spelled out when it is the default anyway)
+        wants = {want}
+        g_ = repo.func('Cluster.get_machine_from_id')
+        for pn, dv in g_.defaults.items():
+            if isinstance(dv, ast.Constant):
+                wants.add('%s, %r)' % (want[:-1], dv.value))
+                wants.add('%s, %s=%r)' % (want[:-1], pn, dv.value))
         what = 'allocations[t] <- planned machine of t'
-        if V == want:
+        if V in wants:
             res.ok('C17.S1', f, n, what, short(V, 160))
         else:
             res.bad('C17.S1', f, n, what,
